@@ -1,5 +1,6 @@
 """Shared by C29 and C37: the T3 obligation text, template pool with state-carrying constructs,
 deep snapshots of inputs."""
+import asyncio
 import collections
 import collections.abc
 import copy
@@ -151,6 +152,11 @@ STATE_SNIPS = [
     # macros of a cached module with {% autoescape %} blocks; one of them fails (zero = 0)
     "{% import 'lib3.html' as M %}{{ M.h(text) }}{{ M.ft(2) }}{{ M.ff(2) }}", "{% import 'lib3.html' as M %}{{ M.ft(zero) }}",
     "{% import 'lib3.html' as M %}{{ M.ff(zero) }}", "{% import 'lib3.html' as M %}{{ M.h(words) }}",
+    # an imported macro whose mutable default is changed in its body: a default is built per call
+    "{% import 'mdef.html' as D %}{{ D.acc(1) }}{{ D.acc(2) }}{{ D.reg('k') }}", "{% from 'mdef.html' import acc %}{{ acc(5) }}",
+    "{% macro lacc(x, st=[]) %}{% set _ = st.append(x) %}{{ st|length }}{% endmacro %}{{ lacc(1) }}{{ lacc(2) }}",
+    # values that pass through auto_await in async mode: a plain generator and a generator-based coroutine (same type)
+    "{% for x in plaingen() %}{{ x }}{% endfor %}", "{{ legacy(2) }}{{ legacy(nums[0]) + 1 }}", "{{ legacy(1) }}{% for x in plaingen() %}{{ x }}{% endfor %}",
     # a cached module with module-level state (recorded finding C29-F3)
     "{% import 'cnt.html' as C %}{{ C.nxt() }}", "{% import 'cyc.html' as Y %}{{ Y.nx() }}",
     # a cached module holding a lazy filter result / an iterator (recorded finding C29-F4)
@@ -164,10 +170,13 @@ AUX = {
                  "{% macro ff(x) %}{% autoescape false %}{{ 4 // x }}{{ '<f>' }}{% endautoescape %}{% endmacro %}"
                  "{% macro h(x) %}{{ [x, '<i>'|safe]|join }}{% endmacro %}",
     "lazy.html": "{% set evens = range(6)|select('even') %}{% set rows = [1, 2]|map('string') %}{% set fixed = range(3)|list %}",
+    "mdef.html": "{% macro acc(x, store=[]) %}{% set _ = store.append(x) %}{{ store|length }}{% endmacro %}"
+                 "{% macro reg(k, d={}) %}{% set _ = d.update({k: 1}) %}{{ d|length }}{% endmacro %}",
     "cyc.html": "{% set c = cycler('a', 'b', 'c') %}{% macro nx() %}{{ c.next() }}{% endmacro %}",
     "cnt.html": "{% set ns = namespace(n=0) %}{% macro nxt() %}{% set ns.n = ns.n + 1 %}{{ ns.n }}{% endmacro %}",
 }
 
+ASYNC_DATA = [False]      # c29 sets it while it renders in async mode: legacy() is then a generator-based coroutine
 SIG_MODULE_STATE = "cached module top-level namespace mutated by its macro"
 SIG_MODULE_LAZY = "cached module top-level lazy filter result consumed by its first importer"
 SIG_MODULE_EVALCTX = "cached-module macro autoescape block (shared module eval context)"
@@ -248,6 +257,20 @@ def make_inputs():
     env_globals = {"gl": {"a": "ga", "its": ["g1", "g2"]}}
     tpl_globals = {"tg": {"k": "tk", "lst": [1, 2]}, "tgv": "T0"}
     data["zero"] = 0
+    import types
+
+    def plaingen():
+        return (x for x in (1, 2))
+
+    if ASYNC_DATA[0]:
+        @types.coroutine
+        def legacy(x):
+            yield from asyncio.sleep(0).__await__()
+            return x * 3
+    else:
+        def legacy(x):
+            return x * 3
+    data.update(plaingen=plaingen, legacy=legacy)
     return data, env_globals, tpl_globals
 
 
